@@ -85,6 +85,9 @@ EXTRA = [
     # an argument-less function (with or without its empty brackets) as the operand of every arithmetic operator
     'name , current_uid * 0 from . limit 2', 'name , current_gid % 1 , current_uid / 1 from . limit 2', 'name from . where current_uid * 0 = 0 limit 2',
     'name , current_uid + 1 , current_uid - 1 from . limit 2', 'name from . order by current_uid * 0 , name limit 2',
+    # ... and written without brackets as the argument of another call (every bracket style of the outer call)
+    'name , year(curdate) from . limit 2', 'name , concat(curdate , name) , length(upper(current_user)) from . limit 2', 'name from . where year(modified) le year(curdate) limit 2',
+    'name , upper(concat(name , current_uid)) from . limit 2', 'count(*) from . group by year(curdate) + 1',
     'name from su.* regexp', 'name from [s]ub maxdepth 1 regexp', 'name , size from e , su.* regexp dfs where name regexp ^a order by 1',
 ]
 
